@@ -20,6 +20,9 @@ RULE = ("library states on all 18 versions from mixed histories (rich tracks, se
         "data, >= 3 crates and >= 2 memberships; distinct by canonical history")
 
 
+ENV_DEFAULT_ROWS = [0]
+
+
 def make_case(cid, rng, schema, root, n_ops, disk):
     ops, metas = GH.gen_library_history(rng, schema, n_ops)
     d = os.path.join(root, dir_name(cid, int(cid[1:]) if cid[1:].isdigit() and int(cid[1:]) % 3 == 0 else 0))
@@ -77,6 +80,15 @@ def make_case(cid, rng, schema, root, n_ops, disk):
                               "DELETE FROM PerformanceData WHERE id = (SELECT MAX(id) FROM Track WHERE path IS NOT NULL)",
                               "UPDATE Track SET length = NULL, year = NULL"])
             add({"op": "raw_exec", "sql": sql}, None)
+    if rng.random() < 0.35:
+        # rows this library writes once, when it creates a library, are not there (libraries made by earlier releases of this library
+        # or by other exporters lack them): the "no album art" row every track points at; on 1.x also the default history / prepare lists
+        sqls = ["DELETE FROM AlbumArt WHERE id = 1"]
+        if not v2 and schema not in ("1.6.0", "1.7.1"):
+            sqls.append(rng.choice(["DELETE FROM List WHERE type = 2", "DELETE FROM List WHERE type = 3", "DELETE FROM List WHERE type IN (2, 3)"]))
+        for q in sqls[:rng.randrange(1, len(sqls) + 1)]:
+            add({"op": "raw_exec", "sql": q}, None)
+        ENV_DEFAULT_ROWS[0] += 1
     if disk:
         # the audio files the tracks name really exist next to the library; every other track has no stored file size
         add({"op": "touch_track_files", "dir": d, "clear_sizes": True}, "touch")
@@ -358,6 +370,7 @@ def run(ctx):
                         ctx.bump("legacy_libraries_with_stray_Database2_folder")
                 cases.append(c)
                 n += 1
+        ctx.extra["states_without_the_rows_written_once_at_creation"] = ENV_DEFAULT_ROWS[0]
         ctx.sample({"schema": cases[0]["schema"], "block": [m for m in cases[0]["_marks"] if m]})
         ctx.assumptions += ["the verdict is total_changes + table digests + file digests + repeatability; the count of "
                             "non-read-only statements stepped during observation is logged only (an UPDATE that matches nothing modifies nothing)"]
